@@ -3,7 +3,8 @@ from contracts import search
 from props.common import *  # noqa: F401,F403
 
 FUNCTIONS = SEARCH_FUNCS + DESIGN_FUNCS + [f"{S}:RowWiseModifiedBisectionSearch.calculate_excess", f"{G}:GHE.size#hourly"]
-NATIVE_FUNCTIONS = SEARCH_NATIVES
+NATIVE_FUNCTIONS = SEARCH_NATIVES + [f"{G}:GHE.size#hourly"]
+NATIVE_CASES_BY_FUNCTION = {f"{G}:GHE.size#hourly": {"quick": 6, "thorough": 200}}
 LEVEL = "proof"
 
 
